@@ -4,6 +4,7 @@ package main
 
 import (
 	"bytes"
+	"sort"
 	"crypto/sha256"
 	"encoding/hex"
 	"fmt"
@@ -26,6 +27,8 @@ func init() {
 		"go.reads":     goReads,
 		"go.readbits":  goReadBits,
 		"go.obtained":  goObtained,
+		"go.built":     goBuilt,
+		"go.builtdict": goBuiltDict,
 		"go.boc":       goBoc,
 		"go.nopanic":   goNoPanic,
 		"cell.forms":   execCellForms,
@@ -211,36 +214,236 @@ func goSpec(a []string) string {
 	return specCompare(t, h.BuildCells(t), "built")
 }
 
-// go.cached <table> <seed>: a caching Hasher (cold and warm, cells visited in random order) agrees with Cell.Hash.
+// go.cached <table> <seed>: every entry point of ONE caching Hasher (Hash, HashString), called repeatedly and in
+// mixed order on the cells of the table (rows near the root first, so that errors come before and after successes),
+// gives the same outcome - value or error - every time, and the same as the uncached Cell.Hash / HashString / Hash256.
 func goCached(a []string) string {
 	t := h.ParseTable(a[0])
 	cs := h.BuildCells(t)
 	seed, _ := strconv.ParseInt(a[1], 10, 64)
 	rng := rand.New(rand.NewSource(seed))
 	hasher := boc.NewHasher()
-	order := rng.Perm(len(cs))
-	if len(order) > 60 {
-		order = order[:60]
+	var order []int
+	if len(cs) <= 60 {
+		order = rng.Perm(len(cs))
+	} else {
+		// big tables (chains around the depth limit): the rows next to the root, some in the middle, the leaves
+		for _, i := range []int{0, 1, 2, 3, len(cs) / 2, len(cs) - 2, len(cs) - 1, 1, 0} {
+			order = append(order, i)
+		}
+		for k := 0; k < 12; k++ {
+			order = append(order, rng.Intn(len(cs)))
+		}
 	}
-	for round := 0; round < 2; round++ {
+	type outcome struct {
+		hash []byte
+		str  string
+		err  bool
+	}
+	want := map[int]outcome{}
+	for _, i := range order {
+		if _, ok := want[i]; ok {
+			continue
+		}
+		fresh, err1 := cs[i].Hash()
+		s1, err2 := cs[i].HashString()
+		h256, err3 := cs[i].Hash256()
+		if (err1 == nil) != (err2 == nil) || (err1 == nil) != (err3 == nil) {
+			return fmt.Sprintf("FAIL uncached-forms-disagree-about-the-error row=%d", i)
+		}
+		if err1 == nil && (s1 != hex.EncodeToString(fresh) || !bytes.Equal(h256[:], fresh)) {
+			return fmt.Sprintf("FAIL hash-forms-differ row=%d", i)
+		}
+		want[i] = outcome{fresh, s1, err1 != nil}
+	}
+	for round := 0; round < 3; round++ {
 		for _, i := range order {
-			fresh, err1 := cs[i].Hash()
-			cached, err2 := hasher.Hash(cs[i])
-			if (err1 == nil) != (err2 == nil) {
-				return fmt.Sprintf("FAIL cached-error-differs row=%d round=%d", i, round)
+			w := want[i]
+			for k := 1 + rng.Intn(3); k > 0; k-- {
+				if rng.Intn(2) == 0 {
+					got, err := hasher.Hash(cs[i])
+					if (err != nil) != w.err {
+						return fmt.Sprintf("FAIL cached-error-differs entry=Hash row=%d round=%d", i, round)
+					}
+					if err == nil && !bytes.Equal(got, w.hash) {
+						return fmt.Sprintf("FAIL cached-hash-differs entry=Hash row=%d round=%d", i, round)
+					}
+				} else {
+					got, err := hasher.HashString(cs[i])
+					if (err != nil) != w.err {
+						return fmt.Sprintf("FAIL cached-error-differs entry=HashString row=%d round=%d got=%q", i, round, got)
+					}
+					if err == nil && got != w.str {
+						return fmt.Sprintf("FAIL cached-hash-differs entry=HashString row=%d round=%d", i, round)
+					}
+				}
 			}
-			if err1 != nil {
-				continue
+		}
+	}
+	return "ok"
+}
+
+// expectedProof builds, independently of boc.MerkleProver, the cell structure a correct proof builder returns for the
+// all-ordinary level-0 table t and the pruned positions: positions replaced by `01 01 hash0 depth0`, every ancestor's
+// mask the OR of its children's, the Merkle-proof root on top. Hashes from the definition (SpecHasher).
+func expectedProof(t []h.Row, paths [][]int) []h.Row {
+	so := h.NewSpecHasher(t)
+	pruned := map[string]bool{}
+	for _, p := range paths {
+		pruned[fmt.Sprint(p)] = true
+	}
+	var out []h.Row
+	var build func(i int, path []int) int
+	build = func(i int, path []int) int {
+		me := len(out)
+		out = append(out, h.Row{})
+		if pruned[fmt.Sprint(path)] {
+			d := so.Depth(i, 0)
+			data := append([]byte{1, 1}, so.Hash(i, 0)...)
+			data = append(data, byte(d>>8), byte(d))
+			out[me] = h.Row{Ty: 1, Mask: 1, BitLen: len(data) * 8, Data: data}
+			return me
+		}
+		r := t[i]
+		row := h.Row{Ty: r.Ty, BitLen: r.BitLen, Data: r.Data}
+		for k, c := range r.Refs {
+			ci := build(c, append(append([]int{}, path...), k))
+			row.Refs = append(row.Refs, ci)
+			row.Mask |= out[ci].Mask
+		}
+		out[me] = row
+		return me
+	}
+	out = append(out, h.Row{})
+	child := build(0, []int{})
+	d := so.Depth(0, 0)
+	data := append([]byte{3}, so.Hash(0, 0)...)
+	data = append(data, byte(d>>8), byte(d))
+	out[0] = h.Row{Ty: 3, Mask: out[child].Mask >> 1, BitLen: len(data) * 8, Data: data, Refs: []int{child}}
+	return out
+}
+
+func parsePathsC02(s string) [][]int {
+	if s == "-" {
+		return nil
+	}
+	var out [][]int
+	for _, p := range strings.Split(s, "/") {
+		var path []int
+		if p != "r" {
+			for _, x := range strings.Split(p, ".") {
+				v, _ := strconv.Atoi(x)
+				path = append(path, v)
 			}
-			if !bytes.Equal(fresh, cached) {
-				return fmt.Sprintf("FAIL cached-hash-differs row=%d round=%d", i, round)
-			}
-			s1, _ := cs[i].HashString()
-			s2, _ := hasher.HashString(cs[i])
-			h256, _ := cs[i].Hash256()
-			if s1 != s2 || s1 != hex.EncodeToString(fresh) || !bytes.Equal(h256[:], fresh) {
-				return fmt.Sprintf("FAIL hash-forms-differ row=%d", i)
-			}
+		}
+		out = append(out, path)
+	}
+	return out
+}
+
+// go.built <table> <paths>: cells obtained from the library's proof builder (NewMerkleProver + cursors pruning at the
+// given positions + CreateProof, parsed back): the result is the structure a correct builder returns (independent
+// construction), satisfies the exotic-cell rules, and Level / hash / depth at all levels of EVERY cell of it equal the
+// definition.
+func goBuilt(a []string) string {
+	t := h.ParseTable(a[0])
+	paths := parsePathsC02(a[1])
+	cs := h.BuildCells(t)
+	prover, err := boc.NewMerkleProver(cs[0])
+	if err != nil {
+		return "FAIL prover-error"
+	}
+	cursor := prover.Cursor()
+	for _, p := range paths {
+		c := cursor
+		for _, i := range p {
+			c = c.Ref(i)
+		}
+		c.Prune()
+	}
+	bytesOut, err := prover.CreateProof(cursor)
+	if err != nil {
+		return "FAIL create-proof-error"
+	}
+	roots, err := boc.DeserializeBoc(bytesOut)
+	if err != nil || len(roots) != 1 {
+		return "FAIL proof-does-not-parse"
+	}
+	got, cells := tableOfParsed(roots)
+	if !h.WFExotic(got) {
+		return "FAIL built-cells-violate-the-exotic-cell-rules (level mask of a cell is not the OR of its children's)"
+	}
+	if r := specCompare(got, cells, "built-by-prover"); r != "ok" {
+		return r
+	}
+	exp := expectedProof(t, paths)
+	expCanon := h.Canon(h.BuildCells(exp)[:1])
+	if gotCanon := h.Canon(roots); gotCanon != expCanon {
+		return "FAIL built-cells-differ-from-the-correct-structure"
+	}
+	// the hash does not depend on how the cell was obtained: built by the prover vs built from raw parts
+	hb, err1 := roots[0].Hash()
+	he, err2 := h.BuildCells(exp)[0].Hash()
+	if err1 != nil || err2 != nil || !bytes.Equal(hb, he) || roots[0].Level() != h.BuildCells(exp)[0].Level() {
+		return "FAIL hash-or-level-of-built-cell-differs"
+	}
+	return "ok"
+}
+
+// go.builtdict <seed> <n>: cells obtained through tlb.ProveKeyInHashmap on a dictionary of n random 32-bit keys:
+// every cell of every proof satisfies the exotic-cell rules and hashes as the definition says.
+func goBuiltDict(a []string) string {
+	seed, _ := strconv.ParseInt(a[0], 10, 64)
+	n, _ := strconv.Atoi(a[1])
+	rng := rand.New(rand.NewSource(seed))
+	seen := map[uint32]bool{}
+	var keys []tlb.Uint32
+	for len(keys) < n {
+		k := rng.Uint32() >> uint(rng.Intn(28))
+		if !seen[k] {
+			seen[k] = true
+			keys = append(keys, tlb.Uint32(k))
+		}
+	}
+	sort.Slice(keys, func(i, j int) bool { return keys[i] < keys[j] })
+	vals := make([]tlb.Uint32, n)
+	for i := range vals {
+		vals[i] = tlb.Uint32(rng.Intn(4))
+	}
+	c := boc.NewCell()
+	if err := tlb.Marshal(c, tlb.NewHashmapE(keys, vals)); err != nil {
+		return "FAIL dictionary-marshal"
+	}
+	root := c.Refs()[0]
+	orig := h.ParseTable(strings.Fields(h.Canon([]*boc.Cell{root}))[0])
+	so := h.NewSpecHasher(orig)
+	prover, err := boc.NewMerkleProver(root)
+	if err != nil {
+		return "FAIL prover-error"
+	}
+	for j := 0; j < 4 && j < n; j++ {
+		k := keys[rng.Intn(n)]
+		kc := boc.NewCell()
+		tlb.Marshal(kc, k)
+		root.ResetCounters()
+		_, proof, err := tlb.ProveKeyInHashmap[tlb.Uint32](prover, root, kc.RawBitString())
+		if err != nil {
+			return "FAIL present-key-yields-an-error"
+		}
+		roots, err := boc.DeserializeBoc(proof)
+		if err != nil || len(roots) != 1 {
+			return "FAIL proof-does-not-parse"
+		}
+		got, cells := tableOfParsed(roots)
+		if !h.WFExotic(got) {
+			return "FAIL built-cells-violate-the-exotic-cell-rules"
+		}
+		if r := specCompare(got, cells, "built-by-ProveKeyInHashmap"); r != "ok" {
+			return r
+		}
+		sp := h.NewSpecHasher(got)
+		if !bytes.Equal(sp.Hash(got[0].Refs[0], 0), so.Hash(0, 0)) {
+			return "FAIL level0-hash-of-built-tree-differs-from-the-original"
 		}
 	}
 	return "ok"
@@ -618,7 +821,62 @@ func genC02(g *h.G) {
 	}
 	// deep chains around the depth limit
 	for _, d := range []int{1022, 1023, 1024, 1025, 1026, 1100} {
-		emitTable(g, h.ChainTable(d, h.Row{BitLen: 3, Data: []byte{0xa0}}), "class_chain")
+		ch := h.ChainTable(d, h.Row{BitLen: 3, Data: []byte{0xa0}})
+		emitTable(g, ch, "class_chain")
+		for k := 0; k < 3; k++ {
+			g.Emit("go.cached", h.TableString(ch), strconv.Itoa(g.Rng.Intn(1<<30)))
+		}
+		// two chains sharing their lower part under one root: shared sub-trees at the depth limit
+		sh := append([]h.Row{{BitLen: 1, Data: []byte{0x80}, Refs: []int{1, 3}}}, shift(ch, 1)...)
+		emitTable(g, sh, "class_chain_shared")
+		g.Emit("go.cached", h.TableString(sh), strconv.Itoa(g.Rng.Intn(1<<30)))
+	}
+	// cells obtained from the library's proof builder: cursors pruning at depths 1..4 (and deeper) in random positions
+	for i := 0; i < g.Scale(400, 8000); i++ {
+		var t []h.Row
+		for {
+			t = g.RandOrdinaryTable(h.DagOpts{MaxCells: g.Pick(3, 6, 12, 24), MaxBits: 300})
+			if unfoldedSize(t) <= 600 {
+				break
+			}
+		}
+		var paths [][]int
+		maxd := 0
+		for k := g.Pick(1, 1, 2, 3); k > 0; k-- {
+			want := 1 + g.Rng.Intn(4)
+			var p []int
+			r := 0
+			for len(p) < want && len(t[r].Refs) > 0 {
+				j := g.Rng.Intn(len(t[r].Refs))
+				p = append(p, j)
+				r = t[r].Refs[j]
+			}
+			if len(p) == 0 {
+				continue
+			}
+			if len(p) > maxd {
+				maxd = len(p)
+			}
+			paths = append(paths, p)
+		}
+		g.Count(fmt.Sprintf("built_prune_depth_%d", maxd))
+		ps := "-"
+		if len(paths) > 0 {
+			ss := make([]string, len(paths))
+			for k, p := range paths {
+				xs := make([]string, len(p))
+				for j, x := range p {
+					xs[j] = strconv.Itoa(x)
+				}
+				ss[k] = strings.Join(xs, ".")
+			}
+			ps = strings.Join(ss, "/")
+		}
+		g.Emit("go.built", h.TableString(t), ps)
+	}
+	for i := 0; i < g.Scale(60, 1500); i++ {
+		g.Count("built_by_ProveKeyInHashmap")
+		g.Emit("go.builtdict", strconv.Itoa(g.Rng.Intn(1<<30)), strconv.Itoa(g.Pick(1, 2, 3, 5, 9, 17, 40)))
 	}
 	// pruned branch with a stored depth near the limit under a chain / directly under a merkle proof
 	for _, sd := range []int{0, 1, 1000, 1022, 1023, 1024, 1025, 65535} {
